@@ -135,7 +135,7 @@ Init == \E i \in 1..Len(Programs) : InitSem(i, <<>>, FALSE)
 Next == SemNext
 EmitInv == (EmitOn /\ Final) =>
    Emit([fam |-> "calls", cls |-> Cases[pid].c, key |-> Cases[pid].key, pid |-> pid,
-         toks |-> Compact(Yield(MinParen(P))), stdin |-> stdin, repl |-> repl,
+         toks |-> Compact(Yield(MinParen(P))), tree |-> P, stdin |-> stdin, repl |-> repl,
          status |-> status, why |-> why, out |-> out, diags |-> diags, natlog |-> natlog, steps |-> steps])
 (* ActivationFresh: a call never reuses a scope; ReturnUnwindsToCall: after a call returns the caller's scope is current *)
 CallFramesConsistent == \A i \in 1..Len(kont) : kont[i].f = "call" => kont[i].env < cur \/ kont[i].env \in 1..Len(envs)
